@@ -1200,44 +1200,47 @@ SPECS["C03"]["level_text"] += (' Props/C03G (track anch): the vocabulary extende
 SPECS["C03"]["lean_modules"] += ["Woodpile.Props.C03W"]
 SPECS["C03"]["theorems"] += [
     "Woodpile.Props.C03W.ghost_run_is_world_run",
-    "Woodpile.Props.C03W.wop_refines_partial",
+    "Woodpile.Props.C03W.wop_refines",
+    "Woodpile.Props.C03W.reachable_inv_w",
     "Woodpile.Props.C03W.other_handles_unchanged",
-    "Woodpile.Props.C03W.named_handle_refines_partial",
-    "Woodpile.Props.C03W.reachable_refines_w_partial",
-    "Woodpile.Props.C03W.fifo_w_partial",
-    "Woodpile.Props.C03W.size_eq_w_partial",
+    "Woodpile.Props.C03W.named_handle_refines",
+    "Woodpile.Props.C03W.reachable_refines_w",
+    "Woodpile.Props.C03W.fifo_w",
+    "Woodpile.Props.C03W.size_eq_w",
     "Woodpile.Props.C03W.consume_reports_w",
-    "Woodpile.Props.C03W.no_empty_slice_w_partial",
+    "Woodpile.Props.C03W.no_empty_slice_w",
     "Woodpile.Props.C03W.ok_run_decidable",
 ]
 SPECS["C03"]["level_text"] += (' Props/C03W (track wabs): the FIFO-pipe theorems for EVERY iovec handle of EVERY WOp history (the 38-constructor multi-object vocabulary '
     'World.step / World.run that Driver/Iovec replays: several iovecs, take, clone, detached arenas with swap / take / flush / read_n, detached anchored slices with '
-    's_split / s_skip / push_aslice, new_from_slices / new_from_arena, extend, drops). GW = World + per-handle ghost (consumed log, register counter), '
+    's_split / s_skip / s_clone / push_aslice, new_from_slices / new_from_arena, extend, drops). GW = World + per-handle ghost (consumed log, register counter), '
     'GW.run IS World.run on the world component (ghost_run_is_world_run); absW g i = the abstraction abs of C03 on handle i; the reference PW is one abstract Pipe per '
     'handle evolved from the op and its returned value only: pushes append, register registers, backfill fills, consumer calls consume the reported count, clear clears, '
     'take MOVES the whole pipe to the fresh handle and leaves Pipe.empty, clone COPIES the pipe holes included, new* create, drop forgets, every other call is the identity. '
-    'wop_refines_partial: one step keeps IovInv of every live iovec and Rel (every live handle\'s absW = the reference pipe) and its returned value satisfies specOk; '
-    'reachable_refines_w_partial / fifo_w_partial / size_eq_w_partial / no_empty_slice_w_partial: lifted to every history from World.init, per handle, with the per-handle ledger '
-    '(moved by take, copied by clone); consume_reports_w: every consuming call reports exactly what it removed; other_handles_unchanged: a step is the identity on the value, '
-    'invariant and abstraction of every iovec it does not name (a backfill through X included when no slice of the other iovec covers a pending placeholder range of X). '
-    '_partial = two side conditions on the HISTORY, decided by running the model (World.okRunB, ok_run_decidable): FillPrivate (a backfill through X finds no other iovec '
-    'referencing X\'s pending placeholder memory; Props/C20W: can only fail between an iovec and a clone of it taken while the placeholder was pending - what a clone with '
-    'pending holes means is spelled out in the file header) and PushFresh (push_aslice does not push memory the target already references - only possible with an s_clone\'d '
-    'anchored slice pushed twice into one iovec; IovInv.ordered is false after such a push). No WOp constructor is excluded.')
+    'The invariant is W.IovInv (Proofs/IovecXInv, IovecXAbs, IovecXAnch: the single-iovec development re-proved): slice disjointness - false here, a cloned anchored slice '
+    'can be pushed twice into one iovec - is replaced by what backfill needs (no other slice of the iovec covers a pending placeholder range); it holds for every live iovec of '
+    'EVERY reachable world with no side condition (reachable_inv_w; no_empty_slice_w). wop_refines: one step keeps Rel (every live handle\'s absW = the reference pipe, handle '
+    'count, tokens) and its returned value satisfies specOk; reachable_refines_w / fifo_w / size_eq_w: lifted to every history from World.init, per handle, with the per-handle '
+    'ledger (moved by take, copied by clone); consume_reports_w: every consuming call reports exactly what it removed; named_handle_refines / other_handles_unchanged: the named '
+    'handle changes by the corresponding pipe operation, every other iovec keeps value, invariant and abstraction (a backfill through X included when no slice of the other iovec '
+    'covers a pending placeholder range of X). Side condition of the Rel / run-level statements: FillPrivate at every step (OkRun; decided by running the model, World.okRunB / '
+    'ok_run_decidable): a backfill through X finds no other iovec referencing X\'s pending placeholder memory - it can only fail between an iovec and a clone of it taken while '
+    'the placeholder was pending (Props/C20W), where the real iovecs DO deviate from independent pipes once both sides have filled; what a clone with pending holes means is '
+    'spelled out in the file header.')
 SPECS["C04"]["lean_modules"] += ["Woodpile.Props.C04W"]
 SPECS["C04"]["theorems"] += [
     "Woodpile.Props.C04W.stable_prefix_has_no_hole_w",
     "Woodpile.Props.C04W.ok_iff_no_pending_w",
-    "Woodpile.Props.C04W.reachable_allInv_partial",
-    "Woodpile.Props.C04W.all_filled_unblocks_w_partial",
-    "Woodpile.Props.C04W.observed_bytes_immutable_w_partial",
+    "Woodpile.Props.C04W.reachable_allInv",
+    "Woodpile.Props.C04W.all_filled_unblocks_w",
+    "Woodpile.Props.C04W.observed_bytes_immutable_w",
     "Woodpile.Props.C04W.slices_never_overwritten_w",
 ]
-SPECS["C04"]["level_text"] += (' Props/C04W (track wabs): the same clauses for every handle of every WOp history (vocabulary and side conditions as Props/C03W). '
-    'stable_prefix_has_no_hole_w / ok_iff_no_pending_w: per live handle, from AllInv (reachable_allInv_partial); all_filled_unblocks_w_partial: once handle i has nothing pending, '
-    'consumed ++ visible is its whole ledger; observed_bytes_immutable_w_partial: along ANY history in which handle i is not reset (clear i, take i, drop i) - operations on and '
+SPECS["C04"]["level_text"] += (' Props/C04W (track wabs): the same clauses for every handle of every WOp history (vocabulary as Props/C03W). '
+    'stable_prefix_has_no_hole_w / ok_iff_no_pending_w: per live handle of every reachable world (reachable_allInv), no side condition; all_filled_unblocks_w: once handle i has '
+    'nothing pending, consumed ++ visible is its whole ledger; observed_bytes_immutable_w: along ANY history in which handle i is not reset (clear i, take i, drop i) - operations on and '
     'clears of other handles, arena swaps, read_n by other objects, other iovecs\' copies and backfills included - every byte of ghost i ++ visible i (indeed every byte cell of i\'s pipe) '
-    'keeps its position and value; slices_never_overwritten_w: no op but backfill changes a byte any slice of any iovec reads (no side condition).')
+    'keeps its position and value (side condition FillPrivate, as C03W); slices_never_overwritten_w: no op but backfill changes a byte any slice of any iovec reads (no side condition).')
 SPECS["C20"]["lean_modules"] += ["Woodpile.Props.C20W"]
 SPECS["C20"]["theorems"] += [
     "Woodpile.Props.C20W.reachable_base",
